@@ -47,6 +47,7 @@ func init() {
 	executors["typednil"] = execTypedNil
 	executors["typedseq"] = execTypedSeq
 	executors["typedmark"] = execTypedMark
+	executors["typednils"] = execTypedNils
 }
 
 // ---------------------------------------------------------------- custom factories
@@ -259,6 +260,68 @@ func typedFromMesg(args []string, withStruct bool) string {
 	return printMessage(&out)
 }
 
+// nilSliceOf: the proto.Value of an array type built from a nil Go slice (len 0, nil data pointer)
+func nilSliceOf(t proto.Type) (proto.Value, bool) {
+	switch t {
+	case proto.TypeSliceBool:
+		return proto.SliceBool(nil), true
+	case proto.TypeSliceInt8:
+		return proto.SliceInt8([]int8(nil)), true
+	case proto.TypeSliceUint8:
+		return proto.SliceUint8([]uint8(nil)), true
+	case proto.TypeSliceInt16:
+		return proto.SliceInt16([]int16(nil)), true
+	case proto.TypeSliceUint16:
+		return proto.SliceUint16([]uint16(nil)), true
+	case proto.TypeSliceInt32:
+		return proto.SliceInt32([]int32(nil)), true
+	case proto.TypeSliceUint32:
+		return proto.SliceUint32([]uint32(nil)), true
+	case proto.TypeSliceInt64:
+		return proto.SliceInt64([]int64(nil)), true
+	case proto.TypeSliceUint64:
+		return proto.SliceUint64([]uint64(nil)), true
+	case proto.TypeSliceFloat32:
+		return proto.SliceFloat32([]float32(nil)), true
+	case proto.TypeSliceFloat64:
+		return proto.SliceFloat64([]float64(nil)), true
+	case proto.TypeSliceString:
+		return proto.SliceString([]string(nil)), true
+	}
+	return proto.Value{}, false
+}
+
+func typedArrayLen(v proto.Value) int {
+	rv := reflect.ValueOf(v.Any())
+	if rv.Kind() == reflect.Slice {
+		return rv.Len()
+	}
+	return -1
+}
+
+// typednils <Name> <opts> <message>: as typedms, but every EMPTY array value of the message (fields and developer fields) is
+// replaced by a proto.Value built from a nil Go slice of the same type before NewXxx sees it (the line protocol has no
+// syntax for a nil slice: an empty payload stands for it in this op).
+func execTypedNils(args []string) string {
+	if len(args) != 3 {
+		return "bad-op"
+	}
+	t := typedTable(args[0])
+	o, ok := parseTypedOpts(args[1])
+	m, ok2 := parseMessage(args[2])
+	if t == nil || !ok || !ok2 {
+		return "bad-op"
+	}
+	for i := range m.Fields {
+		if nv, isArr := nilSliceOf(m.Fields[i].Value.Type()); isArr && typedArrayLen(m.Fields[i].Value) == 0 {
+			m.Fields[i].Value = nv
+		}
+	}
+	s := t.newStruct(&m)
+	out := t.toMesg(s, o)
+	return printStruct(t, s) + " " + printMessage(&out)
+}
+
 func execTypedSM(args []string) string {
 	if len(args) != 3 {
 		return "bad-op"
@@ -462,6 +525,49 @@ func slotValue(sl *mdSlot, mode int, rng *Rng) proto.Value {
 	return proto.Value{}
 }
 
+// typedRandomMesg: a random message of table t: a subset of its slots (some twice; valid / invalid / boundary values, now and
+// then a value of another type), unknown and named fields of arbitrary numbers in between, developer fields; one time in
+// nilEvery (0 = never) a field without FieldBase (NewXxx panics).
+func typedRandomMesg(t *mdTable, r *Rng, pv []proto.Value, nilEvery int) proto.Message {
+	var m proto.Message
+	m.Num = t.num
+	p := 1 + r.Intn(4)
+	for i := range t.slots {
+		if r.Intn(p) != 0 {
+			continue
+		}
+		sl := &t.slots[i]
+		reps := 1
+		if r.Intn(8) == 0 {
+			reps = 2
+		}
+		for ; reps > 0; reps-- {
+			v := slotValue(sl, []int{0, 0, 0, 1, 2}[r.Intn(5)], r)
+			if r.Intn(12) == 0 {
+				v = pv[r.Intn(len(pv))]
+			}
+			m.Fields = append(m.Fields, stdField(t, sl.num, v, r.Intn(4) == 0))
+		}
+		if r.Intn(6) == 0 {
+			k := r.Intn(256)
+			if r.Bool() {
+				m.Fields = append(m.Fields, unknownField(k, pv[r.Intn(len(pv))], r.Intn(4) == 0))
+			} else {
+				m.Fields = append(m.Fields, namedField(k, pv[r.Intn(len(pv))], r.Intn(4) == 0))
+			}
+		}
+	}
+	if r.Intn(3) == 0 {
+		r.shuffleFields(m.Fields)
+	}
+	if nilEvery > 0 && r.Intn(nilEvery) == 0 {
+		m.Fields = append(m.Fields, proto.Field{Value: proto.Uint8(1)}) // nil FieldBase: Reset panics
+		count("nil-fieldbase")
+	}
+	m.DeveloperFields = randomDevFields(r)
+	return m
+}
+
 func genTyped(emit func(string), tier string, rng *Rng) {
 	ts, err := allTables()
 	if err != nil {
@@ -491,6 +597,11 @@ func genTyped(emit func(string), tier string, rng *Rng) {
 					count(fmt.Sprintf("slot-%s-mode%d", sl.kind, mode))
 				}
 			}
+			if nv, isArr := nilSliceOf(sl.ptype); isArr {
+				m := proto.Message{Num: t.num, Fields: []proto.Field{stdField(t, sl.num, nv, false)}}
+				em("typednils", "o:i,std", &m)
+				count("nil-slice-slot")
+			}
 			for _, v := range pv {
 				if v.Type() == sl.ptype {
 					continue
@@ -507,54 +618,33 @@ func genTyped(emit func(string), tier string, rng *Rng) {
 			m2 := proto.Message{Num: t.num, Fields: []proto.Field{unknownField(k, v, r.Bool())}}
 			em("typedms", "o:i,std", &m1)
 			em("typedrt", "o:-,std", &m2)
+			if k%4 == r.Intn(4) || t.num%16 == 0 { // a named field of any number against what the property demands (KF-C13-1 where the message lacks the number)
+				em("typedrt", typedOptStrings[r.Intn(2)*2], &m1)
+			}
 			count("number-sweep")
 		}
 		// random messages: subsets of the slots (some twice), unknown fields in between, developer fields, all options
-		randomMesg := func() proto.Message {
-			var m proto.Message
-			m.Num = t.num
-			p := 1 + r.Intn(4)
-			for i := range t.slots {
-				if r.Intn(p) != 0 {
-					continue
-				}
-				sl := &t.slots[i]
-				reps := 1
-				if r.Intn(8) == 0 {
-					reps = 2
-				}
-				for ; reps > 0; reps-- {
-					v := slotValue(sl, []int{0, 0, 0, 1, 2}[r.Intn(5)], r)
-					if r.Intn(12) == 0 {
-						v = pv[r.Intn(len(pv))]
-					}
-					m.Fields = append(m.Fields, stdField(t, sl.num, v, r.Intn(4) == 0))
-				}
-				if r.Intn(6) == 0 {
-					k := r.Intn(256)
-					if r.Bool() {
-						m.Fields = append(m.Fields, unknownField(k, pv[r.Intn(len(pv))], r.Intn(4) == 0))
-					} else {
-						m.Fields = append(m.Fields, namedField(k, pv[r.Intn(len(pv))], r.Intn(4) == 0))
-					}
-				}
-			}
-			if r.Intn(3) == 0 {
-				r.shuffleFields(m.Fields)
-			}
-			if r.Intn(40) == 0 {
-				m.Fields = append(m.Fields, proto.Field{Value: proto.Uint8(1)}) // nil FieldBase: Reset panics
-				count("nil-fieldbase")
-			}
-			m.DeveloperFields = randomDevFields(r)
-			return m
-		}
+		randomMesg := func() proto.Message { return typedRandomMesg(t, r, pv, 40) }
 		for j := 0; j < nRandom; j++ {
 			m := randomMesg()
 			o := typedOptStrings[r.Intn(len(typedOptStrings))]
 			em("typedms", o, &m)
 			em("typedrt", o, &m)
 			count("random-message")
+			if j%5 == 0 { // array values built from nil Go slices
+				m3 := randomMesg()
+				nEmpty := 0
+				for i := range m3.Fields {
+					if _, isArr := nilSliceOf(m3.Fields[i].Value.Type()); isArr && m3.Fields[i].FieldBase != nil && (r.Intn(2) == 0 || typedArrayLen(m3.Fields[i].Value) == 0) {
+						m3.Fields[i].Value, _ = nilSliceOf(m3.Fields[i].Value.Type())
+						nEmpty++
+					}
+				}
+				if nEmpty > 0 {
+					em("typednils", o, &m3)
+					count("nil-slices")
+				}
+			}
 			if j%6 == 0 { // a used struct is reset with another message
 				m2 := randomMesg()
 				emit(fmt.Sprintf("typedseq %s %s %s", t.name, printMessage(&m), printMessage(&m2)))
